@@ -66,6 +66,11 @@ type replayFile struct {
 	Trace      []string   `json:"trace,omitempty"`
 	TreeDigest string     `json:"tree_digest,omitempty"`
 	Minimised  string     `json:"minimisation,omitempty"`
+	// ChunkFrom is set when the violation depends on state the library keeps
+	// at package level across runs of one worker process: the replay then is
+	// "runs ChunkFrom..run_index of this seed in one fresh process" and the
+	// tape is regenerated from the seed.
+	ChunkFrom *uint64 `json:"replay_runs_from,omitempty"`
 }
 
 const gorace = "GORACE=halt_on_error=0 atexit_sleep_ms=0 exitcode=66"
@@ -117,6 +122,7 @@ func runWorker(bin string, timeout time.Duration, args ...string) workerOut {
 // found is one violating run.
 type found struct {
 	lane   laneCfg
+	from   uint64 // first run index of the chunk the run was found in
 	run    uint64
 	viol   Violation
 	tape   Tape
@@ -209,6 +215,12 @@ func firstViolation(lc laneCfg, wo workerOut) *found {
 	for _, l := range wo.lines {
 		if l.T == "done" && l.Viol != nil {
 			f := &found{lane: lc, run: l.Run, viol: *l.Viol, stderr: wo.stderr}
+			for _, first := range wo.lines {
+				if first.T == "start" {
+					f.from = first.Run
+					break
+				}
+			}
 			if l.Tape != nil {
 				f.tape = *l.Tape
 			}
@@ -336,6 +348,7 @@ func check(prop, tier string, seed uint64) int {
 	stop := false
 	sampleGiven := map[int]bool{}
 	isolated := map[int]bool{}
+	infraNote, infraCount := "", 0
 	var quickDeadline time.Time // bounds the quick tier on slow trees, and the isolated re-search
 	if tier == "quick" {
 		quickDeadline = t0.Add(time.Duration(envInt("VERIF_QUICK_MAX_S", 150)) * time.Second)
@@ -403,7 +416,18 @@ func check(prop, tier string, seed uint64) int {
 					}
 					wo := runWorker(bt.bins[lc.Race], 30*time.Minute, args...)
 					if wo.err != nil {
-						infra("%v\n%s", wo.err, wo.stderr)
+						// e.g. output garbled by a library that corrupts memory: deferred
+						// like any other chunk that could not be completed
+						mu.Lock()
+						if infraNote == "" {
+							infraNote = fmt.Sprintf("%v (lane %s runs %d..%d)\n%s", wo.err, lc.Name, from, to, tailOf(wo.stderr, 2000))
+						}
+						infraCount++
+						if infraCount >= 8 {
+							stop = true
+						}
+						mu.Unlock()
+						continue
 					}
 					if wo.exit == 77 {
 						// Runs in one process depend on each other (the library keeps
@@ -424,7 +448,21 @@ func check(prop, tier string, seed uint64) int {
 						continue
 					}
 					if wo.exit != 0 && wo.exit != 66 {
-						infra("worker exited %d (lane %s runs %d..%d)\n%s", wo.exit, lc.Name, from, to, wo.stderr)
+						// Infrastructure trouble in one chunk (e.g. a deadlocked run)
+						// does not stop the search: a violation that reproduces, found
+						// elsewhere, is the better answer. Without one the check ends
+						// with exit 2 and this message.
+						a.add(lc.Name, wo)
+						mu.Lock()
+						if infraNote == "" {
+							infraNote = fmt.Sprintf("worker exited %d (lane %s runs %d..%d)\n%s", wo.exit, lc.Name, from, to, tailOf(wo.stderr, 4000))
+						}
+						infraCount++
+						if infraCount >= 8 {
+							stop = true
+						}
+						mu.Unlock()
+						continue
 					}
 					a.add(lc.Name, wo)
 					f := firstViolation(lc, wo)
@@ -469,6 +507,11 @@ func check(prop, tier string, seed uint64) int {
 		var reproduced bool
 		report, reproduced = minimiseAndReport(bt, prop, tier, seed, f)
 		if !reproduced {
+			if rf := prefixReplay(bt, prop, tier, seed, f); rf != nil {
+				report, reproduced = rf, true
+			}
+		}
+		if !reproduced {
 			// The run violated the property inside its worker process but its
 			// tape does not in a fresh one: runs in one process depend on each
 			// other through state the library keeps at package level. Search
@@ -509,6 +552,13 @@ func check(prop, tier string, seed uint64) int {
 		}
 		code = 1
 	}
+	if code == 0 && infraNote != "" {
+		writeEvidence(prop, tier, seed, a, bt, lcs, time.Since(t0).Seconds(), 0, nworkers, known, nil)
+		infra("%d worker chunk(s) could not be completed and no violation was found; first: %s", infraCount, infraNote)
+	}
+	if infraNote != "" {
+		fmt.Printf("note: %d worker chunk(s) ended with an infrastructure failure during this search (first: %.300s)\n", infraCount, infraNote)
+	}
 	isoNames := []string{}
 	for li, on := range isolated {
 		if on {
@@ -526,7 +576,12 @@ func check(prop, tier string, seed uint64) int {
 		}
 		fmt.Printf("  class: %s\n  detail: %s\n  minimised tape: %d program + %d schedule entries (%s)\n",
 			report.Violation.Class, report.Violation.Detail, len(report.Tape.Program), len(report.Tape.Schedule), report.Minimised)
-		for _, l := range report.Trace {
+		shown := report.Trace
+		if len(shown) > 160 {
+			fmt.Printf("  | ... (%d earlier trace lines are in the replay file)\n", len(shown)-120)
+			shown = shown[len(shown)-120:]
+		}
+		for _, l := range shown {
 			fmt.Println("  | " + l)
 		}
 		if report.RaceReport != "" {
@@ -542,6 +597,13 @@ func check(prop, tier string, seed uint64) int {
 			prop, total, len(a.ntSigs), time.Since(t0).Seconds())
 	}
 	return code
+}
+
+func tailOf(s string, n int) string {
+	if len(s) > n {
+		return "..." + s[len(s)-n:]
+	}
+	return s
 }
 
 func indent(s, pre string) string {
